@@ -17,8 +17,14 @@ Open Scope N_scope.
     [DJobPageFail n ents]: a page of job run n through the real pipeline in which the sink refuses an
     entity and the run stops there (no error handler and the refused entity first; or a `log` handler capped at
     one item): [ents] are the entities in front of the refused one - they are written, the call fails, the run
-    is over without endFullSync. *)
-Inductive devent := DEv (e : event) | DExpireAll | DNop | DPause | DExpireOld | DJobPageFail (n : N) (ents : list ent).
+    is over without endFullSync.
+    [DSinkHttp e]: the request [e] as sent by a job's httpDatasetSink (lib/props/c09.py translates the sink's
+    start/batch/end calls into requests: a fresh sync id per run, start header on the first batch of a run);
+    the sink call succeeds iff the answer is 200. *)
+Inductive devent := DEv (e : event) | DExpireAll | DNop | DPause | DExpireOld | DJobPageFail (n : N) (ents : list ent)
+                  | DSinkHttp (e : event).
+
+Definition sink_resp (r : resp) : resp := match r with ROk => ROk | _ => RJobErr end.
 
 Record ostep := mkOstep {
   o_status : N;          (* 0 ok | 1 conflict 409 | 2 gone 410 | 3 bad request | 4 server error | 5 other | 6 job error | 9 panic *)
@@ -57,6 +63,7 @@ Definition dstep (v : variant) (e : devent) (s : state) : resp * state :=
   | DPause => (RNone, age s)
   | DExpireOld => (RNone, expire_old s)
   | DJobPageFail n ents => (RJobErr, snd (step v (EJobBatch n ents) s))
+  | DSinkHttp e => let (r, s1) := step v e s in (sink_resp r, s1)
   end.
 
 Fixpoint predict_from (v : variant) (h : list devent) (s : state) : list ostep :=
@@ -87,6 +94,7 @@ Definition dsstep (e : devent) (gf : dspec) : resp * dspec :=
   | DPause => (RNone, (g, false))
   | DExpireOld => if f then (RNone, gf) else let (r, g1) := sstep EExpire g in (r, (g1, f))
   | DJobPageFail n ents => (RJobErr, (snd (sstep (EJobBatch n ents) g), f))
+  | DSinkHttp e => let (r, g1) := sstep e g in (sink_resp r, (g1, f || refreshes (g_active g) e))
   end.
 
 Definition is_some {A} (o : option A) : bool := match o with Some _ => true | None => false end.
